@@ -76,7 +76,7 @@ def main(tier, seed, budget):
     crng = base.rng_for(seed, 'c13-configs')
     cfgs, skipped = configs.pool(crng, n_sub=10 if quick else 40, max_n=5,
                                  cap=600 if quick else 1700)
-    stats = dict(mixed_hs=0, worlds=0, ref_worlds=0, by_P={}, by_policy={}, eager={}, root_copy=0, events=0, mpi=0, fs=0,
+    stats = dict(blocks_opened=0, mixed_hs=0, worlds=0, ref_worlds=0, by_P={}, by_policy={}, eager={}, root_copy=0, events=0, mpi=0, fs=0,
                  rdigests=set(), nontrivial=set(), harness=0, sound_functions=0, sound_points=0, empty_slice_runs=0,
                  hashseeds=hashseeds, ref_failed=[])
     samples = []
@@ -169,6 +169,7 @@ def main(tier, seed, budget):
                 stats['root_copy'] += int(a['root_copy'])
                 stats['mixed_hs'] += int(bool(a.get('hs_offsets')))
                 stats['events'] += r['steps']
+                stats['blocks_opened'] += sum((rk.get('clock') or {}).get('blocks') or 0 for rk in r['ranks'])
                 stats['mpi'] += r['nmpi']
                 stats['fs'] += r['nfs']
                 stats['rdigests'].add((cfg_key(a), a['P'], r['rdigest']))
@@ -224,6 +225,8 @@ def main(tier, seed, budget):
         worlds_by_P=stats['by_P'], worlds_by_policy=stats['by_policy'], eager_bias=stats['eager'], bcast_root_copy_runs=stats['root_copy'], worlds_with_per_rank_hash_seeds=stats['mixed_hs'],
         runs_with_more_ranks_than_functions=stats['empty_slice_runs'],
         seam_events=stats['events'], mpi_events=stats['mpi'], fs_events=stats['fs'],
+        simulated_time=dict(seam_events=stats['events'], timed_blocks_opened=stats['blocks_opened'],
+                            note='no wall clock is read by ESR; simulated time = seam events (collectives, file-system operations) and virtual timed blocks executed'),
         distinct_interleavings=len(stats['rdigests']),
         functions_checked_by_libsound=stats['sound_functions'], oracle_points=stats['sound_points'],
         hash_seeds=hashseeds, runs_per_hour=round(3600.0 * nworlds / max(wall, 1e-9)),
